@@ -69,6 +69,7 @@ def jwt_signed_string(I, args, ins):
         return TupleV(('', ctx.new_error('jwt', msg='key is of invalid type')))
     ct, cv = _claims_value(I, tok[I.prog.field_index(T, 'Claims')])
     s = ctx.fresh_str('jwt')
+    ctx.add_inv(z3.Length(s) > 16)
     ctx.ghost.setdefault('jwt', {})[str(s)] = {'alg': alg, 'key': kid, 'ctype': ct, 'claims': cv}
     ctx.ghost.setdefault('string_tag', {})[str(s)] = ('jwt',)
     return TupleV((s, None))
